@@ -2,7 +2,7 @@
 HERE="$(cd "$(dirname "$0")" && pwd)"
 # usage: seedtest.sh <patch.diff> <PROP> [tier] [more props...]
 # Applies the patch to a scratch copy of /repo and runs the given checks against it (VERIF_REPO).
-P="$1"; shift
+P="$(realpath "$1")"; shift
 M=$(mktemp -d /tmp/mut.XXXX)
 rsync -a --exclude .git /repo/ $M/
 if ! (cd $M && patch -p1 -s < "$P"); then echo "PATCH FAILED"; rm -rf $M; exit 9; fi
